@@ -99,6 +99,7 @@ func runC16(c *Ctx) {
 	if fns == nil {
 		return
 	}
+	pureScan(c, "C16.pure.no-package-state", c.P.Func("pkg/bech32", "Decode"), c.P.Func("pkg/bech32", "Encode"))
 	M := c16Polymod(c, fns.polymod)
 	c16Expand(c, fns.expand)
 	c16Create(c, fns)
